@@ -20,9 +20,11 @@ def time_unit_den(bpm_values):
     """Dn such that, with all times multiples of 1/Dn s, every half-tick boundary at every BPM of the set is a multiple and
     there are 19 grid points strictly between neighbouring boundaries"""
     import math
+    from fractions import Fraction
     B = 1
     for b in bpm_values:
-        B = B * b // math.gcd(B, b)
+        p = Fraction(str(b)).numerator     # BPM p/q: a half tick lasts 5q/(8p) s, so only the numerators matter
+        B = B * p // math.gcd(B, p)
     return 32 * B
 
 
@@ -98,7 +100,11 @@ def build_td(mods, V, extra_bpm=None):
     else:
         td.stops = BeatValues([BeatValue(Beat(SymInt(k), 48), DecShim(v)) for k, v in zip(V["ks"], V["vs"])])
         td.delays = BeatValues([BeatValue(Beat(SymInt(k), 48), DecShim(v)) for k, v in zip(V["kd"], V["vd"])])
-    td.warps = BeatValues([BeatValue(Beat(SymInt(k), 48), DecShim._make(z3.ToReal(l) / 48, (l, 48))) for k, l in zip(V["kw"], V["lw"])])
+    if "wraw" in V:   # warp lengths as concrete decimals (not necessarily tick aligned); V["lw"] is constrained to the nearest tick count
+        from fractions import Fraction as _F
+        td.warps = BeatValues([BeatValue(Beat(SymInt(k), 48), DecShim._make(_F(w))) for k, w in zip(V["kw"], V["wraw"])])
+    else:
+        td.warps = BeatValues([BeatValue(Beat(SymInt(k), 48), DecShim._make(z3.ToReal(l) / 48, (l, 48))) for k, l in zip(V["kw"], V["lw"])])
     td.offset = DecShim._make(V["off"], (V["noff"], V["den"])) if "den" in V else DecShim(V["off"])
     return td
 
